@@ -43,7 +43,7 @@ def handle (j : Json) : Except String Json := do
     let name := s2t (← strField j "name")
     let sfac ← natField j "sfac"
     let vals := (← field j "vals" >>= floats).map floatToRat
-    let xyz := vals.take 3
+    let xyz := ((vals.take 3).map coordSplit).map coordJoin      -- parse, then print: slot by slot
     let sof := (vals.drop 3).headD 0
     let us := vals.drop 4
     let a : AtomV :=
